@@ -52,24 +52,7 @@ func buildView(c c11Case, dir string) (fsutil.FS, string, error) {
 	case "mem":
 		base = memfs.New(c.Tree)
 	case "multi":
-		// every top-level directory of the tree is a sub-root of a composite (its own in-memory FS); the filter sits
-		// on top of the composite
-		var dirs []fsutil.Dir
-		for _, n := range c.Tree {
-			if strings.Contains(n.Path, "/") || n.Kind != fsmodel.Dir {
-				continue
-			}
-			var sub fsmodel.Tree
-			for _, m := range c.Tree.Under(n.Path) {
-				if m.Path != n.Path {
-					m.Path = strings.TrimPrefix(m.Path, n.Path+"/")
-					sub = append(sub, m)
-				}
-			}
-			st := memfs.StatOf(n, nil)
-			dirs = append(dirs, fsutil.Dir{Stat: st, FS: memfs.New(sub)})
-		}
-		if base, err = fsutil.SubDirFS(dirs); err != nil {
+		if base, err = compositeOf(c.Tree); err != nil {
 			return nil, "", err
 		}
 	default:
@@ -128,6 +111,42 @@ func buildView(c c11Case, dir string) (fsutil.FS, string, error) {
 	opt := &fsutil.FilterOpt{IncludePatterns: pre(c.Include), ExcludePatterns: pre(c.Exclude), FollowPaths: pre(c.Follow)}
 	v, err := fsutil.NewFilterFS(base, opt)
 	return v, prefix, err
+}
+
+// compositeOf: every top-level directory of the tree becomes a sub-root of a composite (its own in-memory FS).
+func compositeOf(t fsmodel.Tree) (fsutil.FS, error) {
+	var dirs []fsutil.Dir
+	for _, n := range t {
+		if strings.Contains(n.Path, "/") || n.Kind != fsmodel.Dir {
+			continue
+		}
+		var sub fsmodel.Tree
+		for _, m := range t.Under(n.Path) {
+			if m.Path != n.Path {
+				m.Path = strings.TrimPrefix(m.Path, n.Path+"/")
+				sub = append(sub, m)
+			}
+		}
+		dirs = append(dirs, fsutil.Dir{Stat: memfs.StatOf(n, nil), FS: memfs.New(sub)})
+	}
+	return fsutil.SubDirFS(dirs)
+}
+
+// c11MultiTree: three sub-roots (one name a string prefix of another) holding directories of equal base names, a
+// hard-link pair each, and files.
+func c11MultiTree() fsmodel.Tree {
+	T := fsmodel.T0
+	var multi fsmodel.Tree
+	for i, r := range []string{"p", "p1", "r"} {
+		multi = append(multi, fsmodel.Node{Path: r, Kind: fsmodel.Dir, Perm: 0755, Mtime: T + int64(i)},
+			fsmodel.Node{Path: r + "/a", Kind: fsmodel.Dir, Perm: 0750 + uint32(i), Mtime: T + 10 + int64(i)},
+			fsmodel.Node{Path: r + "/a/x", Kind: fsmodel.File, Perm: 0644, Mtime: T + 11, Data: fsmodel.Content(30+i, 5+i), HL: i + 1},
+			fsmodel.Node{Path: r + "/y", Kind: fsmodel.File, Perm: 0644, Mtime: T + 11, Data: fsmodel.Content(30+i, 5+i), HL: i + 1},
+			fsmodel.Node{Path: r + "/z", Kind: fsmodel.File, Perm: 0644, Mtime: T + 12, Data: fsmodel.Content(40+i, 4+i)})
+	}
+	multi = append(multi, fsmodel.Node{Path: "p/1", Kind: fsmodel.Dir, Perm: 0755, Mtime: T + 20}, fsmodel.Node{Path: "p/1/z", Kind: fsmodel.File, Perm: 0644, Mtime: T + 21, Data: []byte("decoy")})
+	multi.Sort()
+	return multi
 }
 
 func judgeC11(c c11Case) (string, string) {
@@ -472,17 +491,8 @@ func runC11(r *evid.Run) {
 	}
 	// a filter on top of a composite of three sub-roots: patterns (and the walk's pruning) that drop one of them
 	{
-		T := fsmodel.T0
-		var multi fsmodel.Tree
-		for i, r := range []string{"p", "q", "r"} {
-			multi = append(multi, fsmodel.Node{Path: r, Kind: fsmodel.Dir, Perm: 0755, Mtime: T + int64(i)},
-				fsmodel.Node{Path: r + "/a", Kind: fsmodel.Dir, Perm: 0755, Mtime: T + 10},
-				fsmodel.Node{Path: r + "/a/x", Kind: fsmodel.File, Perm: 0644, Mtime: T + 11, Data: fsmodel.Content(30+i, 5), HL: i + 1},
-				fsmodel.Node{Path: r + "/y", Kind: fsmodel.File, Perm: 0644, Mtime: T + 11, Data: fsmodel.Content(30+i, 5), HL: i + 1},
-				fsmodel.Node{Path: r + "/z", Kind: fsmodel.File, Perm: 0644, Mtime: T + 12, Data: fsmodel.Content(40+i, 4)})
-		}
-		multi.Sort()
-		mp := []string{"p", "q", "r", "q/a", "p/a/x", "*/y", "!q", "r/z", "**/x"}
+		multi := c11MultiTree()
+		mp := []string{"p", "p1", "r", "p1/a", "p/a/x", "*/y", "!p1", "r/z", "**/x"}
 		for _, in := range patternLists(2, mp) {
 			for _, ex := range patternLists(1, mp) {
 				cases = append(cases, c11Case{Tree: multi, Include: in, Exclude: ex, Under: "multi"})
